@@ -179,7 +179,7 @@ Section Adv.
         && has_int "BatchCount" n c
         && has_int "BlockCount" (block_count (2 + 2 * n + cnt)) c
         && has_int "EntryAddendaCount" cnt c
-        && has_int "EntryHash" (csum "EntryHash" cs) c
+        && has_int "EntryHash" (Z.rem (csum "EntryHash" cs) P10) c
         && has_int "TotalDebitEntryDollarAmountInFile" (csum "TotalDebitEntryDollarAmount" cs) c
         && has_int "TotalCreditEntryDollarAmountInFile" (csum "TotalCreditEntryDollarAmount" cs) c
     | _ => false
